@@ -259,7 +259,7 @@ def _run_shard(args):
     lines.append("Definition bad := mismatches 0 cases.")
     lines.append("Eval vm_compute in bad.")
     f.write_text("\n".join(lines) + "\n")
-    rc, log = sh(["timeout", "900", "coqc", *COQ_ARGS, "-R", str(d), "Cases_" + tag, str(f)], cwd=d, timeout=1000)
+    rc, log = sh(["timeout", "900", "coqc", "-noglob", *COQ_ARGS, "-R", str(d), "Cases_" + tag, str(f)], cwd=d, timeout=1000)
     if rc != 0:
         return idx, None, log[-2000:]
     flat = " ".join(log.split())
@@ -296,7 +296,7 @@ def model_eval(tag: str, imports: str, term: str, prelude: str = "") -> str:
     d.mkdir(parents=True, exist_ok=True)
     f = d / "one.v"
     f.write_text(f"From PW Require Import {imports}.\nOpen Scope Z_scope.\n{prelude}\nEval vm_compute in ({term}).\n")
-    rc, log = sh(["timeout", "300", "coqc", *COQ_ARGS, str(f)], cwd=d, timeout=400)
+    rc, log = sh(["timeout", "300", "coqc", "-noglob", *COQ_ARGS, str(f)], cwd=d, timeout=400)
     flat = " ".join(log.split())
     m = re.search(r"= (.*) : obs", flat)
     return m.group(1) if m else flat[-1500:]
